@@ -104,7 +104,8 @@ CHECKS = {
         groups=[G("^TestC08_Session$", 1500, 100000)],
         rule="sequential histories of 1..40 (thorough 80) session operations (attach/walk/open/create/read/write/stat/wstat/clunk/remove) on p9p.SFileSys over an "
              "instrumented mock file system; fids from a 5-value pool plus NOFID and a never-bound value; name lists incl. '..', missing, non-normal; ~8% of operations "
-             "have a file-system failure or a partial walk injected. After every step the result and (via the verif hook) the real fid table are compared with a "
+             "have a file-system failure or a partial walk injected; 8% are called with a context that is already cancelled; two of the mock's directories and some created files carry "
+             "composite qid types (QTDIR|QTTMP, QTDIR|QTAPPEND|QTEXCL, QTAPPEND). After every step the result and (via the verif hook) the real fid table are compared with a "
              "reference fid table written from the property text. Non-trivial = the history contains a walk onto a bound fid, an in-place walk, a partial walk, reuse of a "
              "clunked fid, or read/write on a wrongly opened fid; distinct by hash of the history.",
         require_classes=dict(quick=["walk_onto_bound", "inplace_walk", "partial_walk", "reuse_after_clunk", "io_wrong_mode", "attach_onto_bound", "second_open", "nofid", "fs_error_injected"], thorough=[]),
@@ -117,7 +118,7 @@ CHECKS = {
         level="fault_enumeration",
         groups=[G("^TestC13_Release$", 1500, 100000)],
         rule="same state machine as C08 with heavy fault injection (25% of operations make the mock's attach/walk/open/opendir/create/read/write/stat/wstat/clunk/remove call fail, "
-             "or cut a walk short) and Session.Stop at a generated step (25%) or at the end. Oracle: per mock handle release counter and use-after-release flag; after every step no bound fid "
+             "or cut a walk short; 8% of operations are called with an already cancelled context) and Session.Stop at a generated step (25%) or at the end. Oracle: per mock handle release counter and use-after-release flag; after every step no bound fid "
              "points at a released handle; after Stop no fid is bound and every handle that was ever bound has exactly one release. Non-trivial = a failure was injected into an operation "
              "on a bound fid.",
         require_classes=dict(quick=["fault_on_bound_fid", "stop_midway", "handles_bound"], thorough=[]),
@@ -130,10 +131,11 @@ CHECKS = {
         groups=[G("^TestC20_Client$", 1500, 80000)],
         rule="histories of 2..30 (thorough 60) file-system-level operations (Attach/Walk/Open/OpenDir/Create/Stat/WStat/Clunk/Remove/read) on entries obtained from "
              "p9p.CFileSys layered over a recording spy over SFileSys(mockfs); walk name lists include '.', '', 'x/..' forms, missing and partial targets, separators; "
-             "10% injected file-system failures. Oracle: the spy shows exactly the corresponding session call on the entry's own fid; live entries and server fids "
+             "10% injected file-system failures; a third of the reads fail in transit (an I/O error that is not end-of-file, before reaching the session); 1 walk in 12 names a chain of 16..23 "
+             "directories (complete, with a missing element near the end, or cut short by the server); 1 case in 15 runs against a server that exports a single regular file. Oracle: the spy shows exactly the corresponding session call on the entry's own fid; live entries and server fids "
              "(read through the verif hook) correspond one to one after every step; a walk is reported as success iff the server completed it; after clunking every "
              "entry the server table is empty. Non-trivial = a walk whose names are changed by normalisation, or a partial walk.",
-        require_classes=dict(quick=["walk_normalised", "walk_partial", "walk_complete", "walk_failed", "create_ok"], thorough=[]),
+        require_classes=dict(quick=["walk_normalised", "walk_partial", "walk_complete", "walk_failed", "create_ok", "walk_over_16_names", "file_rooted_export", "read_fails_in_transit"], thorough=[]),
         assumptions=["operations are only issued on live entries (using an entry after Clunk/Remove is caller misuse)",
                      "Create with a name the client rejects locally may legitimately issue no session call"],
     ),
@@ -143,10 +145,12 @@ CHECKS = {
         groups=[G("^TestC17_Readdir$", 3000, 100000), G("^TestC17_Session$", 1500, 40000), G("^TestC17_EndToEnd$", 300, 6000)],
         rule="listing of 0..60 entries with name/uid lengths 0..300; the underlying iterator hands them out in generated batch sizes and ends with (nil,nil), (empty,nil) or io.EOF; "
              "read counts = largest encoded entry + {0,1,2,..120,..3000,70000}; 12% of reads are preceded by a read at a wrong offset. Three levels: p9p.NewReaddir directly, "
-             "through SFileSys on a mock directory, and end to end CFileSys(CSession) <-> ServeConn with the negotiated msize forced to a generated value. Oracle: the reference "
+             "through SFileSys on a mock directory (1 case in 8: the directory read is a new one, created with DMDIR and read through the create fid - its listing is empty whatever its parent holds), "
+             "and end to end CFileSys(CSession) <-> ServeConn with the negotiated msize forced to a generated value (1 case in 4: one iterator call is made with an already cancelled context and the caller "
+             "carries on; 1 in 10: an entry whose encoding is within 24 bytes of msize 65536). Oracle: the reference "
              "encoder's stat records concatenated in listing order; every reply is a run of whole entries, at most count bytes, empty iff everything was delivered. "
              "Non-trivial = at least 2 entries and at least 2 non-empty reads (an entry boundary met a buffer boundary).",
-        require_classes=dict(quick=["multi_read", "empty_listing", "wrong_offset_rejected", "level1", "level2", "level3", "end_nil", "end_empty", "end_eof"], thorough=[]),
+        require_classes=dict(quick=["multi_read", "empty_listing", "wrong_offset_rejected", "level1", "level2", "level3", "end_nil", "end_empty", "end_eof", "iterator_call_cancelled", "entry_within_24_of_max_msize"], thorough=[]),
         assumptions=["every read count is at least the largest encoded entry, as the property states", "the underlying iterator returns no errors"],
     ),
     "C14": dict(
@@ -263,11 +267,12 @@ CHECKS = {
         groups=[G("^TestC09_Seq$", 1500, 15000), G("^TestC09_Conc$", 100, 1500), G("^TestC09_ProbeD14$", 1, 1, shard=False)],
         rule="CSession <-> in-memory connection <-> ServeConn(SSession(S)) with S a recording session returning generated results. Sequential: 1..12 calls per connection over all 11 "
              "Session methods with boundary-biased arguments (fids, int64 offsets incl. negative and 2^63-1, buffer/data lengths around msize-11 / msize-23 and far beyond, all modes, perms, "
-             "0..20 walk names, Dir records with sub-second times), results or errors (MessageRerror or plain) from S; negotiated msize forced to 128..65535 by rewriting the client's Tversion in flight. "
+             "0..20 walk names, Dir records with sub-second times), results or errors (MessageRerror, plain, or a Go error wrapping a MessageRerror) from S; in a quarter of the cases the transport "
+             "hands over at most 1..7 bytes per Read in both directions; negotiated msize forced to 128..65535 by rewriting the client's Tversion in flight. "
              "Oracle: S received exactly the caller's arguments and the caller exactly S's results up to the documented limits (read/write clipped to msize-11/msize-23, ErrShortWrite, whole-second "
              "times, >16 names refused locally, 0-byte read may surface as io.EOF, errors by text). Concurrent: 2..4 (rendezvous) / 2..32 (buffered) callers x 1..12 calls whose results derive from the "
              "fid; each caller must get its own result and some call must complete at least every 5 s until all have. Non-trivial = a call with non-zero fid whose S-side result is a success; distinct by case hash.",
-        require_classes=dict(quick=["m_" + m for m in "auth attach clunk remove walk read write open create stat wstat".split()] + ["clipped_to_msize", "session_error", "error_with_partial_count", "conc_with_abandoned_calls", "conc_rendezvous", "conc_buffered", "d14_probe"], thorough=[]),
+        require_classes=dict(quick=["m_" + m for m in "auth attach clunk remove walk read write open create stat wstat".split()] + ["clipped_to_msize", "session_error", "error_with_partial_count", "transport_in_small_pieces", "conc_with_abandoned_calls", "conc_rendezvous", "conc_buffered", "d14_probe"], thorough=[]),
         assumptions=["arguments are generated so that every request and reply other than read/write data fits in msize (messages that do not fit are C02's business)",
                      "known finding D14: >= 5 concurrent callers over a zero-buffer connection wedge; the generator stays below that on rendezvous connections and a separate probe (16 callers x 100 calls) reports it"],
     ),
@@ -293,11 +298,13 @@ CHECKS = {
         rule="histories of up to 50 (thorough 100) operations by 1..3 SFileSys sessions on one fresh ramfs instance (verif hook): attach, walk (incl. '..', missing, non-normal names, "
              "through removed directories), clone, create file/dir, open, read, write, truncate (wstat length), stat, clunk, remove, list; offsets over the whole int64 range "
              "(dense at 0, len-1, len, len+1, 2^31, 2^63-1, -1, -2^63), counts 0..64 KiB; a third of the histories start with a canned prelude (parameters generated) that creates a stale handle "
-             "to a removed-and-recreated name or a handle inside a removed directory. Oracle: a model tree keyed by node identity (removed-but-referenced nodes live on); reads must return exactly "
+             "to a removed-and-recreated name, a handle inside a removed directory, or a directory with a child held through three fids, removed through the first, 'removed' again through the second "
+             "(refused) and then used through the third. Oracle: a model tree keyed by node identity (removed-but-referenced nodes live on); reads must return exactly "
              "the model's bytes, listings (as sets) exactly the live children plus '..', walks and qids as in the model, no call may panic; after clunking every fid the validator requires "
-             "nref == parent links for every node. Concurrent variant: one goroutine per session, race detector, no panic, final validator. "
+             "nref == parent links for every node. Concurrent variants: one goroutine per session; all sessions creating one name at the same instant (exactly one wins); one session creating 150..1800 names while the "
+             "others spin on walking to the name about to appear; race detector, no panic, final validator. "
              "Non-trivial = a write not at offset 0, a '..' walk or a walk from a removed node, or two sessions touching one node.",
-        require_classes=dict(quick=["write_at_nonzero_offset", "dotdot_walk", "walk_from_removed_node", "node_shared_by_sessions", "remove_stale_handle", "huge_offset", "create_race", "concurrent_sessions"], thorough=[]),
+        require_classes=dict(quick=["write_at_nonzero_offset", "dotdot_walk", "walk_from_removed_node", "node_shared_by_sessions", "remove_stale_handle", "huge_offset", "create_race", "create_vs_walk_spin", "concurrent_sessions"], thorough=[]),
         assumptions=["a read at an offset beyond the end (incl. offsets >= 2^63) must deliver zero bytes; whether an error accompanies it is not asserted",
                      "'..' at the root is rejected (the library's documented path rule)",
                      "I/O through a fid that was walked in place while open is not asserted (the property text does not determine its meaning), only that nothing panics",
@@ -310,7 +317,10 @@ CHECKS = {
         rule="temp layout top/{outside.txt, exportx, export-evil/..., other/etc, export/...}; histories of up to 30 (thorough 60) operations on SFileSys(ufs.NewServer(top/export)) from fids bound at "
              "depths 0..3: walk / create / rename (wstat name) with names from a hostile alphabet ('..', '.', '', '../x', '../outside.txt', '../export-evil/secret.txt', '/etc/passwd', 'a/../../x', "
              "'..\\x', '\\', NUL, 300-byte names, '../' x 40, chains of '..' longer than the depth followed by an outside target) in every name-carrying field, plus open/read/write/chmod/truncate/"
-             "remove/list on whatever got bound, incl. attempts on the root. No symlinks are created. Oracle after every step: the snapshot (names, types, perms, sizes, contents, inodes, mtimes) of everything "
+             "remove/list on whatever got bound, incl. attempts on the root; creates also with the special permission bits (DMSYMLINK, DMNAMEDPIPE, DMDEVICE, DMSOCKET, DMAPPEND, DMEXCL, DMTMP, DMAUTH, DMMOUNT); "
+             "renames also with names that move the object upwards inside the export ('../k2', '../../k2', ...), half of the renames followed at once by a climb ('..' x 1..4 + an outside target) from the renamed fid; "
+             "'time passes' steps that change the exported directory's mtime on the host, followed by a root fid obtained afresh (clone, '..' from below, new attach) and an attempt to remove or rename it; "
+             "a fifth of the cases on an empty export. No symlinks are created. Oracle after every step: the snapshot (names, types, perms, sizes, contents, inodes, mtimes) of everything "
              "under top but outside top/export is unchanged; top/export is still the same inode; no returned qid path is the inode of an outside object; no read returned the outside sentinel. "
              "Non-trivial = a hostile name (containing '..', a separator, NUL, empty, '.' or over-long) was used.",
         require_classes=dict(quick=["hostile_name_used", "empty_export"], thorough=[]),
@@ -322,8 +332,9 @@ CHECKS = {
         level="exploration",
         groups=[G("^TestC19_Mirror$", 300, 12000)],
         rule="histories of up to 30 (thorough 60) operations on SFileSys(ufs.NewServer(export)) over a small tree: create file (permission bits x open mode), mkdir, walk (incl. '..'), open "
-             "(OREAD/OWRITE/ORDWR/OEXEC with and without OTRUNC), read/write at offsets 0..60 and -1, chmod, truncate (0..4096, 2^63), rename (names from a small alphabet so that collisions and "
-             "renames onto existing files/dirs occur), remove, stat and listing through freshly walked fids. Oracle: a twin directory driven by the equivalent direct OS call per operation "
+             "(OREAD/OWRITE/ORDWR/OEXEC with and without OTRUNC, also combined with the option bits OCEXEC and ORCLOSE), read/write at offsets 0..60 and -1, chmod, truncate (0..4096, 2^63), rename (names from a small alphabet so that collisions and "
+             "renames onto existing files/dirs occur), remove, stat and listing through freshly walked fids; a fifth of the histories contain a block in which a fid keeps pointing at a name while the "
+             "object of that name is replaced, through other fids, by one of the other kind (file <-> directory), after which the stale fid is removed/renamed/stat'ed. Oracle: a twin directory driven by the equivalent direct OS call per operation "
              "(OpenFile(O_CREATE|flags, perm&0777), Mkdir, OpenFile(flags), ReadAt, WriteAt, Truncate, Chmod(mode&0777), rename(2), Remove); after every step the two trees must be identical "
              "(names, types, permission bits, sizes, contents), the session must succeed exactly when the direct operation does, data read through a fid must equal the twin file's bytes, and fresh stats / "
              "listings must match Lstat/ReadDir of the export (name, DMDIR/QTDIR, permission bits, length, whole-second mtime, qid path = inode). "
@@ -331,6 +342,7 @@ CHECKS = {
         require_classes=dict(quick=["write_at_offset", "truncating_open", "rename", "chmod", "mkdir", "truncate", "create_file", "fresh_stat", "listing"], thorough=[]),
         assumptions=["decided on this kernel/file system, as root, with the process umask fixed to 022",
                      "create of an existing name: ufs opens the existing file; the twin does the same (OpenFile without O_EXCL), so both are compared, neither outcome is presumed",
-                     "walk/create on an already open fid and I/O through a fid walked in place while open are not asserted"],
+                     "walk/create on an already open fid and I/O through a fid walked in place while open are not asserted",
+                     "only single-field wstats are generated: which of several requested changes survive a multi-field Twstat that fails half way is not determined by the property"],
     ),
 }
